@@ -46,13 +46,25 @@ def _pos(focus, n):
     return f
 
 
-def h_auto(d, shape, focus, n, npos, lit=None, pre=0, post=0, conj_cats=False):
+LICENSED = {     # category triples the active grammar derives (a reader may consult the grammar; the head flag of the file must survive)
+    ('en', 'B(L,L)'): dict(leaf=['NP', 'S[dcl]\\NP'], node=['S[dcl]']),
+    ('en', 'B(L,B(L,L))'): dict(leaf=['NP', '(S[dcl]\\NP)/NP', 'NP'], node=['S[dcl]', 'S[dcl]\\NP']),
+    ('en', 'B(B(L,L),L)'): dict(leaf=['NP[nb]/N', 'N', 'S[dcl]\\NP'], node=['S[dcl]', 'NP']),
+    ('ja', 'B(L,L)'): dict(leaf=['NP[case=ga,mod=nm,fin=f]', 'S[mod=nm,form=base,fin=f]\\NP[case=ga,mod=nm,fin=f]'], node=['S[mod=nm,form=base,fin=f]']),
+}
+
+
+def h_auto(d, shape, focus, n, npos, lit=None, pre=0, post=0, conj_cats=False, licensed=None):
     from depccg.printer.auto import auto_of
     from depccg.printer.conll import conll_of
     from depccg.tools import reader
     from depccg.utils import denormalize
     env.install_open(reader)
     cats = dict(leaf=['NP[conj]', 'S[dcl]/NP[conj]', 'N[conj]', 'NP'], node=['NP[conj]', 'S[dcl]', '(S\\NP)\\NP[conj]']) if conj_cats else None
+    from depccg.lang import set_global_language_to
+    set_global_language_to(licensed or 'en')
+    if licensed:
+        cats = LICENSED[(licensed, shape_name(shape))]
     tb = TreeBuilder(d, 'en', word=_word(focus, n, lit, pre, post), attrs=dict(pos=_pos(focus, npos)) if npos else {}, heads='sym', cats=cats)
     t = tb.build(shape)
     line = auto_of(t)
@@ -100,6 +112,9 @@ def obligations(tier):
             yield Obligation('C08.auto[%s,leaves=0+1,word=2]' % shape_name(s), 'h_auto', dict(shape=s, focus=[0, 1], n=2, npos=0), cost=12)
     for s in [SHAPES[1][0], SHAPES[2][0], SHAPES[2][1], SHAPES[3][0]]:
         yield Obligation('C08.auto[%s,categories ending in [conj],word=1]' % shape_name(s), 'h_auto', dict(shape=s, focus=[0], n=1, npos=0, conj_cats=True), cost=3)
+    for (lang, sn) in LICENSED:
+        s = [x for k in (2, 3) for x in SHAPES[k] if shape_name(x) == sn][0]
+        yield Obligation('C08.auto[%s,%s grammar derives every node,word=1]' % (sn, lang), 'h_auto', dict(shape=s, focus=[0], n=1, npos=0, licensed=lang), cost=3)
     lits = literals()
     for lit in lits:
         for pre, post in ((0, 0), (1, 0), (0, 1)) + (() if q else ((1, 1),)):
